@@ -38,7 +38,70 @@ namespace c14
       std::size_t pos;
    };
 
-   inline result run( const std::vector< unsigned char >& data )
+   // a reader over the bytes that hands out at most `step` bytes per call (buffer_input asks for Chunk or more)
+   struct mem_reader
+   {
+      const char* p;
+      std::size_t left;
+      std::size_t step;
+
+      std::size_t operator()( char* buffer, const std::size_t length )
+      {
+         std::size_t n = ( length < left ) ? length : left;
+         if( n > step ) {
+            n = step;
+         }
+         if( n != 0 ) {
+            std::memcpy( buffer, p, n );
+         }
+         p += n;
+         left -= n;
+         return n;
+      }
+   };
+
+   // the same text through a buffer_input that fetches `Chunk` bytes at a time (capacity: the whole text, never an overflow)
+   template< std::size_t Chunk >
+   result run_buffered( const char* data, const std::size_t size, const std::size_t step )
+   {
+      pegtl::buffer_input< mem_reader, pegtl::eol::lf_crlf, std::string, Chunk > in( "c14", size + 16, mem_reader{ data, size, step } );
+      result r{ 0, 0 };
+      try {
+         r.res = pegtl::parse< top >( in ) ? 1 : 0;
+      }
+      catch( const std::exception& ) {
+         r.res = 2;
+      }
+      catch( ... ) {
+         r.res = 2;
+      }
+      r.pos = in.byte();
+      return r;
+   }
+
+   inline result run_memory( const std::vector< unsigned char >& data );
+
+   // memory_input is the reference; the result must not depend on the input class (res 4: it does)
+   inline result run( const std::vector< unsigned char >& data, const bool buffered = false )
+   {
+      result r = run_memory( data );
+      if( buffered && r.res != 3 ) {
+         std::unique_ptr< char[] > buf( new char[ data.size() ] );
+         if( !data.empty() ) {
+            std::memcpy( buf.get(), data.data(), data.size() );
+         }
+         const result b1 = run_buffered< 1 >( buf.get(), data.size(), 1 );
+         const result b64 = run_buffered< 64 >( buf.get(), data.size(), 64 );
+         const result b3 = run_buffered< 3 >( buf.get(), data.size(), 2 );
+         const auto same = [ & ]( const result& x ) { return x.res == r.res && ( r.res != 1 || x.pos == r.pos ); };
+         if( !( same( b1 ) && same( b64 ) && same( b3 ) ) ) {
+            r.res = 4;
+         }
+      }
+      return r;
+   }
+
+   inline result run_memory( const std::vector< unsigned char >& data )
    {
       // exact-size heap buffer, no terminator; size 0 still gets a distinct allocation
       std::unique_ptr< char[] > buf( new char[ data.size() ] );
@@ -113,12 +176,12 @@ int main()
       }
       else if( op == "C" ) {
          is >> hex;
-         const auto r = c14::run( c14::unhex( hex ) );
+         const auto r = c14::run( c14::unhex( hex ), true );
          std::cout << "C " << r.res << ' ' << r.pos << '\n';
       }
       else if( op == "S" ) {
          is >> hex;
-         const auto r = c14::run( c14::unhex( hex ) );
+         const auto r = c14::run( c14::unhex( hex ), true );
          std::cout << "S " << r.res << ' ';
          if( r.res == 1 ) {
             std::cout << r.pos;
